@@ -77,6 +77,7 @@ def is_guard_fn(F, b):
 
 
 def run(F, R, tier):
+    _round6(F, R)
     # ---------------- C16-a ------------------------------------------------
     creators = ["ModuleBuilder::create_new_symbol", "ModuleBuilder::get_symbol_from_swc_id", "ModuleBuilder::ensure_symbol_for_swc_id"]
     sites = [n for n in F.all_nodes() if callee_matches(n, creators) and n["_top"].get("self_adt") == "symbols::analyzer::SymbolFiller"]
@@ -386,3 +387,30 @@ def run(F, R, tier):
     # ---------------- C16-e ------------------------------------------------
     from . import c09
     c09.prefer_types_sites(F, R, tag="C16-e")
+
+
+def _round6(F, R):
+    # C16-d: a symbol taken from a resolved export is always handed on together
+    # with *that export's* module (a symbol id is only meaningful in its module)
+    n_pairs = 0
+    for b in F.bodies:
+        if b["file"] != "src/symbols/cross_module.rs" or b.get("derived"):
+            continue
+        for n in b["_nodes"]:
+            if n.get("k") not in ("Call", "MethodCall"):
+                continue
+            args = call_args(n) if n["k"] == "Call" else n["args"]
+            for s_ in args:
+                sv = peel_value(s_)
+                if sv.get("k") == "MethodCall" and sv["name"] == "symbol" and tyc(F, sv["recv"], "ResolvedExport"):
+                    base = peel_value(sv["recv"]).get("lid")
+                    mods = [m_ for m_ in args if tyc(F, m_, "ModuleInfoRef<")]
+                    if base is None or not mods:
+                        continue
+                    n_pairs += 1
+                    mv = peel_value(mods[0])
+                    ok = mv.get("k") == "Field" and mv["field"] == "module" and peel_value(mv["e"]).get("lid") == base
+                    R.ob("C16-d", "a resolved export's symbol is passed on with that export's module [%s]" % b["path"].split("::")[-1], ok,
+                         "`%s` is passed together with module `%s`, not with the module of the export it came from: a symbol reached through `export *` is then looked up in the wrong module's symbol table (wrong definition, or a panic on the module-id assertion in debug builds)" % (expr_text(s_)[:30], expr_text(mods[0])[:30]),
+                         where(n), key="C16|C16-d|symbol-module-pairing|%s" % b["path"].split("::")[-1])
+    R.floor("C16-d (module, symbol) hand-offs from a resolved export", n_pairs, 1)
